@@ -249,7 +249,9 @@ def arg_to_spec(a):
 # ----------------------------------------------------------------------------- random types
 
 
-NAMES = ["t", "Ty", "q.r", "é", "名"]
+# names and texts that begin / end with white space are legal and must come back as they are (seeded changes C05-13,
+# C10-13: `str_strip_whitespace` in the shared model configuration)
+NAMES = ["t", "Ty", "q.r", "é", "名", " pad ", "nl\n"]
 EXTS = ["e", "arithmetic.int.types", "ext.β"]
 
 
@@ -275,7 +277,7 @@ def gen_arg(rng, depth):
     if k == 1:
         return ["@nat", rng.choice([0, 1, 5, 64, 2**40])]
     if k == 2:
-        return ["@str", rng.choice(["", "s", "naïve", "a\"b\\c"])]
+        return ["@str", rng.choice(["", "s", "naïve", "a\"b\\c", " x\t", "\n"])]
     if k == 3:
         return ["@seq", [gen_arg(rng, depth - 1) for _ in range(rng.randint(0, 3))]]
     if k == 4:
@@ -619,7 +621,7 @@ def std_type(key, *args):
 # ---- random values
 
 PAYLOADS = [None, 0, {"a": [1, "x"]}, "p", [True, {"k": None}], {"é": -3, "b": {"c": []}}, 2**70]
-STRINGS = ["", "s", "naïve", 'a"b\\c', "名"]
+STRINGS = ["", "s", "naïve", 'a"b\\c', "名", " lead", "trail \n"]
 FLOATS = ["0.0", "1.5", "-2.25", "1e+16", "3.0", "inf", "nan", "-0.0", "1e-07"]
 
 
@@ -1066,7 +1068,7 @@ def gen_op(rng, kind=None, depth=2, partial=0.2, value=None):
     if k == "output":
         return ["@output", opt(row())]
     if k == "custom":
-        return ["@custom", rng.choice(OP_NAMES), gen_sig(rng, depth), rng.choice(["", "a description", "dé\"sc"]),
+        return ["@custom", rng.choice(OP_NAMES), gen_sig(rng, depth), rng.choice(["", "a description", "dé\"sc", "Ends with a newline.\n", "  indented"]),
                 rng.choice(EXTS + [""]), gen_args(rng)]
     if k == "extop":
         poly = "@none" if rng.random() < 0.2 else gen_poly(rng, depth)
